@@ -608,7 +608,8 @@ func runFrame(fr *frame) {
 			}
 			fr.i.Steps++
 			if fr.i.Steps > fr.i.W.ses.cfg.StepBudget {
-				panic(unmodelled{"step budget exceeded (unwinding cap)"})
+				fr.i.Steps = 0
+				panic(unmodelled{"step budget exceeded (unwinding cap) @ " + strings.Join(fr.i.stackStrings(5), " <- ")})
 			}
 			fr.curInstr = instr
 			if visitInstr(fr, instr) == kReturn {
